@@ -6,7 +6,9 @@ mod cachedrv;
 mod concdrv;
 mod crashdrv;
 mod fsm;
+mod imgdrv;
 mod layout;
+mod migdrv;
 mod obs;
 mod seqdrv;
 mod util;
@@ -24,6 +26,8 @@ fn main() {
         "cache" => cachedrv::main(rest),
         "crash" => crashdrv::main(rest),
         "conc" => concdrv::main(rest),
+        "images" => imgdrv::main(rest),
+        "migrate" => migdrv::main(rest),
         "recover" => crashdrv::recover_main(rest),
         "chunkrec" => crashdrv::chunkrec_main(rest),
         "clocksat" => seqdrv::clocksat(rest),
